@@ -754,6 +754,15 @@ func streams(c Cfg, n int, seed int64, out, rankOut string) {
 				idx.Insert(id, append(amath.Vector{}, vecs[rng.Intn(c.Np)]...), m, lvl(rng, c.MaxLv))
 			}
 		}
+		if it%3 == 1 {
+			// remove the entry point a few times in a row: after hand-overs through pruned (one-sided) links the entry
+			// point can lie BELOW the highest stored level - a state every round trip has to restore as it is
+			for r := 0; r < 1+rng.Intn(4); r++ {
+				if st, _ := hx.Project(idx, u, nil); len(st.Ep) > 0 {
+					idx.Remove(hx.Uid(st.Ep[0]))
+				}
+			}
+		}
 		pre, _ := hx.Project(idx, u, nil)
 		for hdr := 0; hdr <= 1; hdr++ {
 			var buf bytes.Buffer
